@@ -24,6 +24,8 @@ LEVEL = 'exploration'
 BUDGET = {'quick': 60, 'thorough': 600}
 # deterministic sub-checks repeated in a `python -O` child (core.optimized_child)
 OPT_SUBS = ('restricted#4', 'nearmiss')
+# documented call interface the generated calls rely on (vcheck/callstyle.py)
+INTERFACE = [('oslo_utils.imageutils.format_inspector', None)]
 RULE = ('contents: every subset of the nine signatures (one offset-0 '
         'signature x any of VDI@0x40, MBR@510, ISO@32769, plus the FAT '
         'look-alike) stamped on zero/random/text backgrounds at lengths on '
@@ -76,6 +78,7 @@ def check_detection(col, case, sub='wrapper'):
     sched = case['schedule']
     mode = case.get('mode', 'read')
     adm, d, m, names = admissible(data, allowed)
+    imgdrive.tracing_for((core.h64(data), repr(sched), mode))
     # an expected_format that is NOT among the allowed formats must have no
     # effect at all (that format is never considered, nothing can abort)
     # expected_format: either outside the allowed formats (it must then have
